@@ -44,8 +44,9 @@ RULE = ("stateful cells = sampler set-up x target x warm-up length k x generator
         "A cell is non-trivial when the reference chain moves (at least two distinct states) and at least one "
         "history with a crash point was compared")
 BOUND = {
-    "quick": "stateful: 13 sampler classes in 19 set-ups (+1 scalar-initial-point witness cell), warm-up k in {0,3}, 1 generator seed, all histories with <=4 "
-             "sampling transitions and <=2 non-advancing operations (1026 per cell); HybridGibbs: 4 set-ups, same k, "
+    "quick": "stateful: 12 sampler classes in 19 set-ups (+1 scalar-initial-point witness cell), warm-up k in {0,3}, "
+             "1 generator seed, all histories with <=4 sampling transitions and <=2 non-advancing operations "
+             "(1026 per cell); HybridGibbs: 4 set-ups, same k, "
              "<=4 transitions, <=2 reads (136 per cell); stateless: 9 sampler classes in 11 set-ups, sample(N,Nb) on "
              "{1..4}x{0..3}, sample_adapt on {10,12}x{0,2,5}; legacy Gibbs: 2 set-ups, all call sequences with parts "
              "1..3 and total <=4, warm-up 0..2 in the first call",
@@ -478,8 +479,13 @@ def _eq_chain(a, b):
     return len(a) == len(b) and all(_same(x, y) for x, y in zip(a, b))
 
 
+LOOP_FACETS = ("length", "callback-count", "callback-index")     # book-keeping of the sample()/warmup() loop
+
+
 def _judge_stateful(o, ref, k, n):
-    """facet -> message for one history observation against the uninterrupted run ref (= (k, n))."""
+    """facet -> message for one history observation against the uninterrupted run ref (= (k, n)).
+    The facets are independent (list model of the record / differential oracle on chain / on state), so one
+    failing facet does not hide another; only a wrong length makes the positional comparisons meaningless."""
     bad = {}
     if o.error is not None:
         bad["raises:" + o.error[0]] = "operation %s raised %s" % o.error
@@ -499,30 +505,29 @@ def _judge_stateful(o, ref, k, n):
         idx = [i for _, i in log.entries]
         produced += vals
         if len(vals) != want:
-            bad["callback-count"] = "call-back invoked %d times for %d transitions" % (len(vals), want)
-            return bad
+            bad.setdefault("callback-count", "call-back invoked %d times for %d transitions" % (len(vals), want))
+            produced = None
+            break
         if [int(i) for i in idx] != list(range(want)):
-            bad["callback-index"] = "call-back indices %s, chain indices are %s" % (idx, list(range(want)))
-            return bad
-    for i, (v, _) in enumerate(o.segs[-1][1].entries):
-        if not _same(v, o.chain[i]):
-            bad["stored-entry-altered"] = ("entry %d of the recorded chain is %s, the call-back received %s when it "
-                                           "was produced" % (i, o.chain[i], v))
-            return bad
+            bad.setdefault("callback-index", "call-back indices %s, chain indices are %s" % (idx, list(range(want))))
+    if produced is not None:
+        for i, (v, _) in enumerate(o.segs[-1][1].entries):
+            if not _same(v, o.chain[i]):
+                bad["stored-entry-altered"] = ("entry %d of the recorded chain is %s, the call-back received %s when "
+                                               "it was produced" % (i, o.chain[i], v))
+                break
     for got, copy in o.reads:
         if not _same(np.asarray(got.samples, dtype=float), copy):
             bad["stored-entry-altered"] = "a chain returned by get_samples() changed after it was returned"
-            return bad
+            break
     # differential oracle
-    if not _eq_chain(produced, ref.chain):
+    if produced is not None and "stored-entry-altered" not in bad and not _eq_chain(produced, ref.chain):
         d = next((i for i, (x, y) in enumerate(zip(produced, ref.chain)) if not _same(x, y)), None)
         bad["chain"] = ("state %s of the run differs from the uninterrupted run warmup(%d);sample(%d): %s vs %s"
                         % (d, k, n, None if d is None else produced[d], None if d is None else ref.chain[d]))
-        return bad
-    if not _eq_chain(o.chain, ref.chain[p_last:]):
+    elif not _eq_chain(o.chain, ref.chain[p_last:]):
         bad["chain"] = "recorded chain differs from the corresponding part of the uninterrupted run"
-        return bad
-    if o.state is not None and ref.state is not None:
+    if o.state is not None and ref.state is not None and "chain" not in bad:     # a diverged chain implies a diverged state
         if sorted(o.state) != sorted(ref.state):
             bad["state-keys"] = "state payload keys %s vs %s" % (sorted(o.state), sorted(ref.state))
         else:
@@ -534,14 +539,15 @@ def _judge_stateful(o, ref, k, n):
     return bad
 
 
-def _attribute(res, comp, fails, extra=""):
-    """Report only minimal failing histories: deleting any one non-advancing operation makes the facet pass."""
+def _attribute(res, comp, fails, extra="", loop_comp=None):
+    """Report only minimal failing histories: deleting any one non-advancing operation makes the facet pass.
+    Book-keeping facets are attributed to the class that defines the sample() loop (loop_comp)."""
     reported = {}
     for h in sorted(fails, key=lambda t: (len(t), t)):
         for facet, msg in fails[h].items():
             if any(facet in fails.get(h2, {}) for h2 in _drop_one_dev(h)):
                 continue
-            sig = "C14|%s|%s|%s" % (comp, _kind(h), facet)
+            sig = "C14|%s|%s|%s" % (loop_comp if (loop_comp and facet in LOOP_FACETS) else comp, _kind(h), facet)
             if sig in reported:
                 reported[sig][1] += 1
                 continue
@@ -549,6 +555,14 @@ def _attribute(res, comp, fails, extra=""):
     for sig, ((h, msg), cnt) in reported.items():
         res.fail(sig, "history %s%s: %s (%d minimal failing histories in this cell)" % (list(h), extra, msg, cnt),
                  focus={"history": list(h)})
+
+
+def _defining_class(cls, method):
+    from cuqi.experimental import mcmc
+    for c in getattr(mcmc, cls).__mro__:
+        if method in vars(c):
+            return c.__name__
+    return cls
 
 
 def _moves(chain):
@@ -560,6 +574,7 @@ def eval_stateful(cell, res):
     maxn, maxdev = cell["maxn"], cell["maxdev"]
     cls = _stateful_setups()[setup][0]
     comp = "cuqi.experimental.mcmc." + cls
+    loop_comp = "cuqi.experimental.mcmc." + _defining_class(cls, "sample")
     tmpdir = tempfile.mkdtemp(prefix="c14_%d_" % os.getpid())
     try:
         refs_ = {}
@@ -573,7 +588,7 @@ def eval_stateful(cell, res):
                 res.outcomes.add("%s:refused:%s" % (setup, r.error[1][:60]))
                 res.nontrivial = False
                 res.state("refused")
-                if n == 0:
+                if r.error[0] == "construct":    # the sampler does not accept this target/configuration
                     return
                 res.fail("C14|%s|sample|raises:%s" % (comp, r.error[0]),
                          "uninterrupted run warmup(%d);sample(%d) raised %s" % (k, n, r.error[1]))
@@ -585,7 +600,7 @@ def eval_stateful(cell, res):
             for facet, msg in selfbad.items():
                 if facet not in broken:
                     broken.add(facet)
-                    res.fail("C14|%s|sample|%s" % (comp, facet),
+                    res.fail("C14|%s|sample|%s" % (loop_comp if facet in LOOP_FACETS else comp, facet),
                              "uninterrupted run warmup(%d);sample(%d): %s (set-up %s, seed %d)" % (k, n, msg, setup, seed))
             res.evaluations += 1
         if broken:      # the reference run itself is not a faithful record: differential verdicts would be consequences
@@ -612,7 +627,7 @@ def eval_stateful(cell, res):
                 res.count("crash-at-%d" % (p - k))
         if ncrash == 0:
             res.nontrivial = False
-        _attribute(res, comp, fails, extra=" (set-up %s, warm-up %d, seed %d)" % (setup, k, seed))
+        _attribute(res, comp, fails, extra=" (set-up %s, warm-up %d, seed %d)" % (setup, k, seed), loop_comp=loop_comp)
         res.sample = {"setup": setup, "k": k, "reference_chain_first_component": [float(v[0]) for v in full],
                       "histories": res.traces, "failing_histories": len(fails),
                       "state_keys": sorted(refs_[maxn].state or {})}
@@ -667,7 +682,7 @@ def eval_hybrid(cell, res):
             res.nontrivial = False
             res.state("refused")
             res.outcomes.add("%s:refused:%s" % (setup, r.error[1][:60]))
-            if n > 0 or k > 0:
+            if r.error[0] != "construct":
                 res.fail("C14|%s|sample|raises:%s" % (comp, r.error[0]),
                          "uninterrupted run warmup(%d);sample(%d) raised %s" % (k, n, r.error[1]))
             return
